@@ -171,17 +171,17 @@ def Counter.toJson : Counter → Json
   | .int n => .num (.pos n)
   | .flt m e => .num (.flt false m e)
 
-/-- value as a u64: floats are truncated toward zero and saturate at 2^64-1 -/
+/-- value as a u64: floats are truncated toward zero -/
 def Counter.val : Counter → Nat
   | .int n => n
-  | .flt m (.ofNat k) => min (m * 2 ^ k) U64MAX
-  | .flt m (.negSucc k) => min (m / 2 ^ (k + 1)) U64MAX
+  | .flt m (.ofNat k) => m * 2 ^ k
+  | .flt m (.negSucc k) => m / 2 ^ (k + 1)
 
-/-- integer ≤ 2^64-1, float with 0 ≤ m·2^e ≤ 2^64 -/
+/-- integer ≤ 2^64-1, float with 0 ≤ m·2^e < 2^64 -/
 def Counter.WF : Counter → Prop
   | .int n => n ≤ U64MAX
-  | .flt m (.ofNat k) => m * 2 ^ k ≤ U64MAX + 1
-  | .flt m (.negSucc k) => m ≤ (U64MAX + 1) * 2 ^ (k + 1)
+  | .flt m (.ofNat k) => m * 2 ^ k ≤ U64MAX
+  | .flt m (.negSucc k) => m < (U64MAX + 1) * 2 ^ (k + 1)
 
 structure BrS where
   count : Counter
